@@ -218,9 +218,13 @@ func RunHistories(c *Ctx, d *HDriver, maxDepth int, rep *Report) *HStats {
 						rep.Add(d.Name+": "+clause(v)[1:], v[1:]+"\nhistory: "+strings.Join(h, " ; "), map[string]any{"driver": d.Name, "history": h})
 						continue
 					}
-					nPerClause[ck]++
+					// histories listed for a recorded finding never count against the cap: they cannot crowd out a new one
+					fk := ck + " @ " + CompactHistory(h)
+					if !c.IsKnownKey(fk) {
+						nPerClause[ck]++
+					}
 					if nPerClause[ck] <= 400 {
-						rep.Add(ck+" @ "+CompactHistory(h), v+"\nhistory: "+strings.Join(h, " ; "), map[string]any{"driver": d.Name, "history": h})
+						rep.Add(fk, v+"\nhistory: "+strings.Join(h, " ; "), map[string]any{"driver": d.Name, "history": h})
 					}
 				}
 				if s.Cut {
@@ -298,9 +302,13 @@ func RunHistories(c *Ctx, d *HDriver, maxDepth int, rep *Report) *HStats {
 						rep.Add(d.Name+": "+clause(v)[1:], v[1:]+"\nhistory: "+strings.Join(h, " ; "), map[string]any{"driver": d.Name, "history": h})
 						continue
 					}
-					nPerClause[ck]++
+					// histories listed for a recorded finding never count against the cap: they cannot crowd out a new one
+					fk := ck + " @ " + CompactHistory(h)
+					if !c.IsKnownKey(fk) {
+						nPerClause[ck]++
+					}
 					if nPerClause[ck] <= 400 {
-						rep.Add(ck+" @ "+CompactHistory(h), v+"\nhistory: "+strings.Join(h, " ; "), map[string]any{"driver": d.Name, "history": h})
+						rep.Add(fk, v+"\nhistory: "+strings.Join(h, " ; "), map[string]any{"driver": d.Name, "history": h})
 					}
 				}
 				want := succOf[akeys[i]][op]
